@@ -43,6 +43,7 @@ class FEval:
         P, f = self.P, self.f
         fields = fields if share else dict(fields)
         vals = {}
+        locs = {}
         for k, v in args.items():
             vals[k] = v
         for k in (arrays or {}):
@@ -89,7 +90,49 @@ class FEval:
                 op = i.op
                 if op == "phi":
                     continue
-                if op == "getelementptr" and isinstance(val(i.a[0]), tuple) and val(i.a[0])[0] == "arr":
+                if op == "alloca":
+                    # a local object: its bytes (little-endian targets), addressed by ("loc", id, offset)
+                    size = getattr(i, "size", None)
+                    if size is None:
+                        raw = next((x for bb in P.facts["functions"][f.name]["blocks"] for x in bb["insts"] if x["i"] == i.id), {})
+                        size = raw.get("size")
+                    if not size:
+                        raise AnalysisBroken("feval: local object of unknown size at %s" % i.loc)
+                    locs[i.id] = bytearray(size)
+                    vals[i.id] = ("loc", i.id, 0)
+                elif op == "getelementptr" and isinstance(val(i.a[0]), tuple) and val(i.a[0])[0] == "loc":
+                    base = val(i.a[0])
+                    off = base[2]
+                    for stp in i.path:
+                        if stp[0] not in ("p", "a"):
+                            raise AnalysisBroken("feval: unsupported address computation at %s" % i.loc)
+                        idx = val(stp[1])
+                        bits = _bits(self.optype.get(stp[1]) if isinstance(stp[1], int) else "i%d" % stp[1][2])
+                        off += _signed(idx, bits) * stp[2]
+                    vals[i.id] = ("loc", base[1], off)
+                elif op == "load" and isinstance(val(i.a[0]), tuple) and val(i.a[0])[0] == "loc":
+                    pa = val(i.a[0])
+                    nb = max(1, _bits(i.ty) // 8)
+                    if pa[2] < 0 or pa[2] + nb > len(locs[pa[1]]):
+                        raise AnalysisBroken("feval: %s reads outside a local object (%s)" % (f.srcname, i.loc))
+                    vals[i.id] = _mask(int.from_bytes(locs[pa[1]][pa[2]:pa[2] + nb], "little"), _bits(i.ty))
+                elif op == "store" and isinstance(val(i.a[1]), tuple) and val(i.a[1])[0] == "loc":
+                    pa = val(i.a[1])
+                    v0 = val(i.a[0])
+                    if isinstance(v0, tuple):
+                        raise AnalysisBroken("feval: pointer stored into a local object at %s" % i.loc)
+                    bits = _bits(self.optype.get(i.a[0]) if isinstance(i.a[0], int) else "i%d" % i.a[0][2])
+                    nb = max(1, bits // 8)
+                    if pa[2] < 0 or pa[2] + nb > len(locs[pa[1]]):
+                        raise AnalysisBroken("feval: %s writes outside a local object (%s)" % (f.srcname, i.loc))
+                    locs[pa[1]][pa[2]:pa[2] + nb] = _mask(v0, nb * 8).to_bytes(nb, "little")
+                elif op == "call" and i.callee and i.callee.startswith(("llvm.memcpy.", "llvm.memmove.")) and \
+                        all(isinstance(val(a), tuple) and val(a)[0] == "loc" for a in i.a[:2]):
+                    d, s_, n_ = val(i.a[0]), val(i.a[1]), val(i.a[2])
+                    if d[2] < 0 or s_[2] < 0 or d[2] + n_ > len(locs[d[1]]) or s_[2] + n_ > len(locs[s_[1]]):
+                        raise AnalysisBroken("feval: %s copies outside a local object (%s)" % (f.srcname, i.loc))
+                    locs[d[1]][d[2]:d[2] + n_] = bytes(locs[s_[1]][s_[2]:s_[2] + n_])
+                elif op == "getelementptr" and isinstance(val(i.a[0]), tuple) and val(i.a[0])[0] == "arr":
                     base = val(i.a[0])
                     off = base[2]
                     for stp in i.path:
